@@ -2,15 +2,69 @@
    C32 - Writes land only where the caller is allowed to write.
    Only property statements live here; proofs are in Proofs.v.
 
-   [variant] selects between the code as it is ([v_current]) and the code with the repairs
-   proposed in /verif/fixes ([v_fixed]); every positive theorem is stated for ALL variants, its
-   guard [bw_guard v] / [quiet v] shrinking as the flags of v are switched on.  [san] is
+   [variant] has one flag per repair site.  The CURRENT source has all eight repairs (commits
+   42c3150 7b9e05e 3357074 80b73d4 e9d7934 b4081e3 of /repo; regenerated into
+   ArcGen.Params_Recovery.deployed on every run and instantiated in Obligations.v).  The PRIMARY
+   statements are the ones about repaired variants (part I); part II keeps the statements about
+   ALL variants (guards shrinking as flags are switched on) and the refutations of the old ones.  [san] is
    SanitizeUTF8 (arbitrary), [now] / [now'] the clock readings of the live write and of the
    replay (arbitrary). *)
 From Coq Require Import List ZArith NArith Bool Lia.
 From Arc Require Import Lib.AList Recovery.Model Recovery.Proofs.
 Import ListNotations.
 Open Scope Z_scope.
+
+(* ============================== part I: the repaired code ========================== *)
+
+(* C05, replay = live, row-format writes (line protocol, msgpack row / batch / array): with routing
+   keys written last, strict callback keys and no second unit guess, NO column name and NO
+   timestamp is excluded.  What remains: the write names a database and a measurement, has a
+   non-empty time column, rectangular columns whose values have one kind per column (see
+   C05_mixed_column_refuted) and strings SanitizeUTF8 leaves alone. *)
+Theorem C05_repaired_rows_guard : forall v san db meas cols,
+  v_routing_last v = true -> v_strict_keys v = true -> v_rows_no_renorm v = true ->
+  nonempty db = true -> nonempty meas = true -> NoDup (map fst cols) ->
+  (exists tc, lookupb k_time cols = Some tc /\ tc <> []) ->
+  (exists n, all_len n cols = true) ->
+  forallb (fun nc => homog_col (snd nc)) cols = true ->
+  clean_cols san cols ->
+  rows_guard v san db meas cols.
+Proof. exact repaired_rows_guard. Qed.
+Print Assumptions C05_repaired_rows_guard.
+
+(* ... raw msgpack columnar writes: string or integer measurement alike *)
+Theorem C05_repaired_raw_guard : forall v db top,
+  v_int_m v = true -> nonempty db = true ->
+  (exists l tc, lookupb k_columns top = Some (GMap l) /\ lookupb k_time (array_cols l) = Some tc /\ tc <> []) ->
+  raw_guard v db top.
+Proof. exact repaired_raw_guard. Qed.
+Print Assumptions C05_repaired_raw_guard.
+
+(* C05, every crash point of every history, UNCONDITIONALLY (no "quiet" premise) once recovery
+   flushes before it deletes; with convert-before-append the histories may contain any write the
+   conversion rejects *)
+Theorem C05_crash_any_point_repaired : forall v san evs k now,
+  v_flush_before_delete v = true ->
+  Forall (ev_guard v san) evs ->
+  sub_ms (s_due (run_events v san st0 (firstn k evs)))
+         (s_store (run_events v san st0 (firstn k evs ++ restart now))).
+Proof. exact crash_any_prefix_repaired. Qed.
+Print Assumptions C05_crash_any_point_repaired.
+
+(* C32, live path without the empty-measurement exception *)
+Theorem C32_live_repaired : forall v san now allow_all allow r f,
+  v_empty_meas_checked v = true ->
+  front v san now allow_all allow r = Some f ->
+  (forall w, In (Some w) (f_writes f) ->
+     exists meas cols, bw_parts san now w = Some (f_db f, meas, cols) /\ In meas (f_checked f)) /\
+  (f_writes f <> [] -> forallb (allowed allow_all allow (f_db f)) (f_checked f) = true).
+Proof. exact live_routing_repaired. Qed.
+Print Assumptions C32_live_repaired.
+
+(* (C32_replicated_rows_fixed and C05_replay_equals_live / C32_replay_guarded of part II complete
+   part I: they are stated for every variant and need no flag-specific guard once the flags are on) *)
+
+(* ============================== part II: all variants, old variants ================== *)
 
 (* ============================== C05 ============================================== *)
 
